@@ -49,6 +49,14 @@ uint64_t seq();                       // current global sequence number
 int self_id();                        // simulated thread id of the caller (-1 if not simulated)
 uint32_t choose(uint32_t n, int kind = D_OTHER);    // a recorded decision in [0,n)
 
+// ---- race detection over compiler-instrumented accesses (VSIM_RACE builds of vsim.cpp; harmless no-ops otherwise).
+// A simulated thread is either monitored (code under test) or not (harness / oracle code, which shares its own tables between
+// simulated threads without locks — safe under the serialising scheduler, and none of the property's business).  The main
+// simulated thread starts unmonitored; a new thread inherits the mode of its creator.
+int race_mode(int ignore);            // sets the calling thread's mode (1 = not monitored), returns the previous one
+struct Monitored { int old; Monitored() : old(race_mode(0)) {} ~Monitored() { race_mode(old); } };
+struct Unmonitored { int old; Unmonitored() : old(race_mode(1)) {} ~Unmonitored() { race_mode(old); } };
+
 // ---- results of the current / last run
 long nsteps();
 uint64_t hash();
